@@ -341,6 +341,33 @@ def fill_ctx(node):
     return ast.fix_missing_locations(node)
 
 
+def _refused_imports(ctx):
+    """Python ASTs the importer refuses (identity / membership tests, at the first and at a later
+    link of a chain; a lambda; a starred argument) -- the caller catches the refusal"""
+    import ast as _ast
+    for src in ("zz_a < zz_b is zz_c", "zz_a <= zz_b in zz_c", "zz_a < zz_b < zz_c is not zz_d", "zz_x in zz_y",
+                "zz_a < (lambda: 1)", "zz_a < zz_b < zz_f(*zz_c)", "zz_a == zz_b != zz_c is zz_d"):
+        try:
+            ASTToPymbolic()(_ast.parse(src, mode="eval").body)
+        except RecursionError:
+            raise
+        except Exception:  # noqa: BLE001
+            ctx.count("refused_imports_before_the_judged_one")
+    # ... and then plain and chained comparisons written in Python: what the importer gives now
+    for src, want in (("vf_p < vf_q", p.Comparison(p.Variable("vf_p"), "<", p.Variable("vf_q"))),
+                      ("vf_p <= vf_q < 3", p.LogicalAnd((p.Comparison(p.Variable("vf_p"), "<=", p.Variable("vf_q")),
+                                                         p.Comparison(p.Variable("vf_q"), "<", 3))))):
+        try:
+            got = ASTToPymbolic()(_ast.parse(src, mode="eval").body)
+        except RecursionError:
+            raise
+        except Exception as ex:  # noqa: BLE001
+            return f"importing {src!r} after refused imports raised {type(ex).__name__}: {ex}"
+        if not normal.typed_eq(got, want):
+            return f"importing {src!r} after refused (and caught) imports gives {got!r}, expected {want!r}"
+    return None
+
+
 @check("C13.ast")
 def c_ast(ctx, case):
     e, seed = case
@@ -393,7 +420,16 @@ def c_ast(ctx, case):
                  f"to_evaluatable_python_function({e}) raised {type(ex).__name__}: {ex}; source {fsrc!r}")
         gen_fn = None
     try:
+        prob = _refused_imports(ctx)      # ... after imports that were refused and caught
+        if prob:
+            ctx.fail("C13.ast", case, "from-ast:after-refused-import", prob)
         back = ASTToPymbolic()(tree)
+        stray = G.variables_of(back) - G.variables_of(e)
+        if stray:
+            ctx.fail("C13.ast", case, "from-ast:names-from-elsewhere",
+                     f"ASTToPymbolic()(to_python_ast({e})) = {back!r} mentions {sorted(stray)}, which "
+                     f"do not occur in the expression (they occur in imports refused EARLIER)")
+            back = None
     except NotImplementedError:
         back = None
         ctx.count("importer_refused")
@@ -571,6 +607,7 @@ def workload(ctx):
             ctx.count("handler:" + k, v)
     ctx.floor("subclass_calls", 1000)
     ctx.floor("shared_node_shapes", 300)
+    ctx.floor("refused_imports_before_the_judged_one", 3000)
     ctx.floor("lazy_fault_shapes", 20)
     ctx.floor("signed_zero_and_imaginary_shapes", 15)
     ctx.floor("repeated_constant_shapes", 100)
